@@ -38,6 +38,21 @@ class Scratch:
     def cleanup(self):
         shutil.rmtree(self.dir, ignore_errors=True)
 
+    def harness_crate(self):
+        """the harness crate; when VERIF_REPO points somewhere else than /repo (development
+        aid for running the checks against a scratch worktree) a copy with the path
+        dependency rewritten is used"""
+        if REPO == "/repo":
+            return os.path.join(VERIF, "kani")
+        with self.lock:
+            dst = os.path.join(self.dir, "kani-crate")
+            if not os.path.exists(dst):
+                shutil.copytree(os.path.join(VERIF, "kani"), dst, ignore=shutil.ignore_patterns("target"))
+                ct = os.path.join(dst, "Cargo.toml")
+                t = open(ct).read().replace('path = "/repo"', 'path = "%s"' % REPO)
+                open(ct, "w").write(t)
+            return dst
+
     def repo_snapshot(self):
         """copy of /repo's working tree (sources only) for in-crate runs, so that nothing
         is ever written below /repo"""
@@ -79,7 +94,7 @@ def kani_cmd(scratch, cfg, harness_path, slot, extra=(), manifest_override=None)
     if manifest_override:
         mp = manifest_override
     elif manifest == "kani":
-        mp = os.path.join(VERIF, "kani", "Cargo.toml")
+        mp = os.path.join(scratch.harness_crate(), "Cargo.toml")
     else:
         mp = os.path.join(scratch.repo_snapshot(), "Cargo.toml")
     env = dict(os.environ)
